@@ -1,6 +1,7 @@
 package main
 
 import (
+	"go/constant"
 	"fmt"
 	"go/token"
 	"go/types"
@@ -855,6 +856,8 @@ func (c *Ctx) certifySCC(fns []*ssa.Function, all map[*ssa.Function][]callEdge, 
 				ei.label, ei.why = "R", "reviewed (frozen by reading): "+why
 			} else if pathDescent(e) {
 				ei.label, ei.why = "F", "path argument = own path parameter + Name() of a directory entry (file-system descent; finite acyclic tree assumed, symlinks not followed by ReadDir)"
+			} else if k, ok := depthCounter(e); ok {
+				ei.label, ei.why = "C", fmt.Sprintf("depth counter: the call passes its own integer parameter + a positive constant and is made only while that parameter is below the constant %d", k)
 			}
 			rep.edges = append(rep.edges, ei)
 		}
@@ -981,4 +984,54 @@ func (c *Ctx) certifySCC(fns []*ssa.Function, all map[*ssa.Function][]callEdge, 
 		rep.failure = "uncertified cycle remains after removing the individually refutable edges"
 	}
 	return rep
+}
+
+// depthCounter: a self-recursive call f(..., d+c, ...) (c >= 1) for an integer parameter d of f, executed only on the
+// true edge of `d < K` (K constant): the recursion is at most K deep
+func depthCounter(e callEdge) (int64, bool) {
+	if e.From != e.To || e.From == nil {
+		return 0, false
+	}
+	call, ok := e.Site.(*ssa.Call)
+	if !ok {
+		return 0, false
+	}
+	f := e.From
+	args := call.Call.Args
+	if len(args) != len(f.Params) {
+		return 0, false
+	}
+	for j, p := range f.Params {
+		if !isIntType(p.Type()) {
+			continue
+		}
+		bo, ok := args[j].(*ssa.BinOp)
+		if !ok || bo.Op != token.ADD || bo.X != ssa.Value(p) {
+			continue
+		}
+		c, ok := bo.Y.(*ssa.Const)
+		if !ok || c.Value == nil || c.Value.Kind() != constant.Int || constant.Sign(c.Value) <= 0 {
+			continue
+		}
+		// dominated by the true edge of p < K
+		for d := call.Block(); d != nil; d = d.Idom() {
+			id := d.Idom()
+			if id == nil {
+				break
+			}
+			iff, ok := id.Instrs[len(id.Instrs)-1].(*ssa.If)
+			if !ok || id.Succs[0] != d || len(d.Preds) != 1 {
+				continue
+			}
+			cmp, ok := iff.Cond.(*ssa.BinOp)
+			if !ok || cmp.Op != token.LSS || cmp.X != ssa.Value(p) {
+				continue
+			}
+			if k, ok := cmp.Y.(*ssa.Const); ok && k.Value != nil && k.Value.Kind() == constant.Int {
+				n, _ := constant.Int64Val(k.Value)
+				return n, true
+			}
+		}
+	}
+	return 0, false
 }
